@@ -57,6 +57,9 @@ type SyncSim struct {
 	Backend string
 	Cases   []SyncCase
 	Periods int // how many periods the node keeps re-requesting
+	// Follow builds the store stack of a node that follows a chain (StartFollowChain: callback store over scheme store
+	// over the database, no append-only layer) instead of a participant's
+	Follow bool
 }
 
 type simPeer struct{ addr string }
@@ -159,6 +162,20 @@ func (s *simClient) SyncChain(ctx context.Context, p dnet.Peer, in *proto.SyncRe
 		seq = append(seq, pk)
 		j++
 	}
+	if (name == "forgedreplay" || name == "genuinereplay") && len(seq) > arg {
+		// after its genuine stream the peer sends an old round again: forged (signature of another round, previous
+		// signature = the head's, which is public) or genuine
+		old := seq[arg]
+		rp := &proto.BeaconPacket{Round: old.Round, Signature: append([]byte{}, old.Signature...), PreviousSignature: old.PreviousSignature, Metadata: old.Metadata}
+		if name == "forgedreplay" {
+			last := seq[len(seq)-1]
+			rp.Signature = append([]byte{}, last.Signature...)
+			if rp.PreviousSignature != nil {
+				rp.PreviousSignature = append([]byte{}, last.Signature...)
+			}
+		}
+		seq = append(seq, rp)
+	}
 	ch := make(chan *proto.BeaconPacket, len(seq)+1)
 	// every scripted bad peer ends its stream when it has nothing more to say (fails fast); only an honest
 	// server keeps the stream open for live beacons, and only "stall" never says anything
@@ -236,12 +253,16 @@ func (sm *SyncSim) Run(devs []vrt.Dev, labels bool) *SyncResult {
 			res.Err = err
 			return
 		}
-		as, err := beacon.VerifNewAppendStore(ctx, ss)
-		if err != nil {
-			res.Err = err
-			return
+		var top chain.Store = ss
+		if !sm.Follow {
+			as, err := beacon.VerifNewAppendStore(ctx, ss)
+			if err != nil {
+				res.Err = err
+				return
+			}
+			top = as
 		}
-		cbs := beacon.NewCallbackStore(fix.Logger(), as)
+		cbs := beacon.NewCallbackStore(fix.Logger(), top)
 		cl = &simClient{sim: sm, c: c, ctx: ctx}
 		clk := &vrt.Clock{}
 		syncm, err := beacon.NewSyncManager(ctx, &beacon.SyncConfig{Log: fix.Logger(), Client: cl, Clock: clk, Store: cbs, BoltdbStore: mon,
@@ -311,6 +332,11 @@ func (sm *SyncSim) Judge(r *SyncResult, prefix string) *explore.Exec {
 			add("invalid-beacon-stored", "round %d stored although its signature does not verify against the pinned chain: %v", b.Round, err)
 		}
 		if b.Round != next {
+			if sm.Follow && b.Round < next && b.Round <= c.Height && string(ref[b.Round].Signature) == string(b.Signature) {
+				// a follower has no append-only layer: a genuine beacon it already holds may be written again with the same bytes
+				x.Tags = append(x.Tags, "identical-rewrite")
+				continue
+			}
 			add("write-order", "round %d stored when the head was %d", b.Round, next-1)
 		}
 		next = b.Round + 1
